@@ -59,9 +59,9 @@ Definition prop_resume (input obs : val) : val :=
     let o := v_wopts (vnth 2 input) in
     let hlen := blen (enc_header (roots_opt (is_nil_tag (vnth 3 input)) (vcids (vnth 3 input))) 1) in
     if vtag (vnth 0 obs) "openerr" then VT "ok"
-    else if (w_maxh o <? hlen) || (default_maxh <? hlen) then VT "ok"
-         (* the session wrote a header larger than its own MaxAllowedHeaderSize (or than the 32 MiB
-            ResumableVersion allows): outside C12_transparent's hypotheses; only model = code is checked *)
+    else if w_maxh o <? hlen then VT "ok"
+         (* the session wrote a header larger than its own MaxAllowedHeaderSize: outside
+            C12_transparent's hypotheses; only model = code is checked *)
     else if negb (vtag (vnth 0 obs) "ok") then fail "not-transparent" "reopen-failed"
     else if bytes_eqb (vB (vnth 1 obs)) (vB (vnth 2 obs)) then VT "ok"
     else fail "not-transparent" "bytes-differ"
